@@ -47,10 +47,10 @@ def _is_mutable_literal(v):
 class FunctionReport:
     def __init__(self, qualname, lineno):
         self.qualname, self.lineno = qualname, lineno
-        self.writes, self.ambient, self.set_iter, self.globals = [], [], [], []
+        self.writes, self.ambient, self.set_iter, self.globals, self.memo = [], [], [], [], []
 
     def findings(self):
-        return [("global", g) for g in self.globals] + [("write", w) for w in self.writes] + [("ambient", a) for a in self.ambient] + [("set-iteration", x) for x in self.set_iter]
+        return [("global", g) for g in self.globals] + [("memo", m) for m in self.memo] + [("write", w) for w in self.writes] + [("ambient", a) for a in self.ambient] + [("set-iteration", x) for x in self.set_iter]
 
 
 def analyse(path):
@@ -127,6 +127,18 @@ def analyse(path):
                         fresh = True
                 if not fresh and nm not in borrowed:       # flow-insensitive: borrowed once, borrowed always (parameters included)
                     borrowed[nm] = ast.unparse(v)[:50]
+        for dec in fn.decorator_list:
+            d = dec.func if isinstance(dec, ast.Call) else dec
+            chain = _name_chain(d) or ""
+            if chain.split(".")[-1] in ("lru_cache", "cache", "memoize", "memoized"):
+                # a memo keyed by the arguments is a frame violation when the result also depends on something the key does not contain: the CONTENT of a
+                # file named by an argument.  (A parameterless memo of packaged read-only data is not flagged; aliasing of its result is a run-time matter.)
+                params = [a.arg for a in fn.args.args + fn.args.kwonlyargs if a.arg not in ("self", "cls")]
+                readers = {"open", "read_table", "read_csv", "read_fwf", "loadtxt", "genfromtxt", "fromfile", "read_text", "read_bytes", "load", "safe_load", "readlines", "read"}
+                reads = sorted({(c.func.attr if isinstance(c.func, ast.Attribute) else getattr(c.func, "id", "")) for c in ast.walk(fn) if isinstance(c, ast.Call)} & readers)
+                if params and reads:
+                    rep.memo.append("process-wide memo (@%s) on %s(%s), line %d, whose body reads a file (%s): the result is kept per argument value although the file behind "
+                                    "the name can change between calls" % (chain, qual, ", ".join(params), fn.lineno, ", ".join(reads)))
         globals_declared = set()
         for n in ast.walk(fn):
             if isinstance(n, (ast.Global, ast.Nonlocal)):
@@ -185,6 +197,19 @@ def analyse(path):
                         (isinstance(it, ast.Call) and isinstance(it.func, ast.Name) and it.func.id in ("list", "tuple", "enumerate", "iter") and it.args
                          and isinstance(it.args[0], ast.Name) and it.args[0].id in set_locals):
                     rep.set_iter.append("iteration over %s at line %d" % (ast.unparse(it)[:60], getattr(n, "lineno", getattr(it, "lineno", 0))))
+            # numpy's out= handed an object this function did not create; mutator called on such an object
+            if isinstance(n, ast.Call):
+                for kw in n.keywords:
+                    if kw.arg == "out":
+                        tgt = kw.value
+                        r = _root(tgt)
+                        if (isinstance(tgt, ast.Name) and tgt.id in borrowed) or (isinstance(tgt, (ast.Attribute, ast.Subscript)) and r is not None):
+                            rep.writes.append("out=%s writes into an object this function did not create (%s) at line %d"
+                                              % (ast.unparse(tgt)[:40], borrowed.get(getattr(tgt, "id", None), "attribute / item of " + str(r)), n.lineno))
+                if isinstance(n.func, ast.Attribute) and n.func.attr in (MUTATORS | {"fill", "resize", "ito", "ito_base_units", "partition", "itemset", "setfield", "put"}) \
+                        and isinstance(n.func.value, ast.Name) and n.func.value.id in borrowed and n.func.value.id not in ("self", "cls"):
+                    rep.writes.append("in-place .%s() on %s, which is bound to %s (possibly shared with the caller / a cache) at line %d"
+                                      % (n.func.attr, n.func.value.id, borrowed[n.func.value.id], n.lineno))
             # in-place update of an object that was not created in this function (aliasing through a local name)
             if isinstance(n, ast.AugAssign) and isinstance(n.target, ast.Name) and n.target.id in borrowed:
                 rep.writes.append("in-place %s= on %s, which is bound to %s (possibly shared with the caller / a cache) at line %d"
